@@ -33,9 +33,8 @@ package benchfmt
 //@   ensures len(parts) == 0 ==> len(baseName) == len(n)
 //@   ensures len(parts) > 0 ==> off(parts[0]) == end(baseName) && end(parts[len(parts)-1]) == end(n)
 //@   ensures forall k int :: 0 <= k < len(parts)-1 ==> end(parts[k]) == off(parts[k+1])
-//@   ensures forall k int :: 0 <= k < len(parts) ==> parts[k][0] == '/' ||
-//@             (k == len(parts)-1 && parts[k][0] == '-' && len(parts[k]) >= 2 &&
-//@              forall j int :: 1 <= j < len(parts[k]) ==> isdigit(parts[k][j]))
+//@   ensures forall k int :: 0 <= k < len(parts)-1 ==> parts[k][0] == '/'
+//@   ensures len(parts) > 0 ==> parts[len(parts)-1][0] == '/' || (parts[len(parts)-1][0] == '-' && len(parts[len(parts)-1]) >= 2)
 //@   ensures forall j int :: 0 <= j < len(baseName) ==> n[j] != '/'
 //@   ensures (exists k int :: gomaxprocsAt(n, k)) <==> (len(parts) > 0 && parts[len(parts)-1][0] == '-')
 //@   ensures len(parts) > 0 && parts[len(parts)-1][0] == '-' ==> gomaxprocsAt(n, off(parts[len(parts)-1])-off(n))
